@@ -663,10 +663,19 @@ func (env *Env) evalQuant(x *EQuant) Val {
 		t := env.resolveType(qv.Type)
 		srt := vc.sort1(t)
 		name := "q_" + qv.Name
+		if vc.qdepth > 0 {
+			// nested quantifier (possibly reached through a pred expansion whose arguments mention the
+			// enclosing bound variable): a distinct name per nesting depth avoids variable capture
+			name = fmt.Sprintf("q_%s_%d", qv.Name, vc.qdepth)
+		}
 		n = n.with(qv.Name, Val{T: t, C: []string{name}})
 		binders = append(binders, "("+name+" "+srt+")")
 	}
-	body := n.eval(x.Body, types.Typ[types.Bool])
+	vc.qdepth++
+	body := func() Val {
+		defer func() { vc.qdepth-- }()
+		return n.eval(x.Body, types.Typ[types.Bool])
+	}()
 	if !isBool(body.T) {
 		efail("quantifier body is not boolean")
 	}
@@ -765,6 +774,20 @@ func (env *Env) evalCall(x *ECall, hint types.Type) Val {
 				efail("unknown type %s", s.Val)
 			}
 			return Val{T: boolT, C: []string{"(= " + v.C[0] + " " + vc.typeID(t) + ")"}}
+		case "typeid":
+			// typeid("T"): the dynamic-type id that interfaces holding a T carry in .typ
+			if len(x.Args) != 1 {
+				efail("typeid(\"T\") expects one string literal")
+			}
+			s, ok := x.Args[0].(*EStr)
+			if !ok {
+				efail("typeid(\"T\") expects a string literal type")
+			}
+			t := vc.prog.typeByString(s.Val, env.pkg)
+			if t == nil {
+				efail("unknown type %s", s.Val)
+			}
+			return Val{T: types.Typ[types.Int], C: []string{vc.typeID(t)}}
 		case "ptrof":
 			// ptrof(iface, "T"): the payload of an interface as *T
 			v := env.eval(x.Args[0], nil)
